@@ -63,3 +63,47 @@ func WaitGoroutines(max int, timeout time.Duration, substrs ...string) int {
 		}
 	}
 }
+
+// GoroutineIDs returns the ids of the goroutines whose stack mentions any substring.
+func GoroutineIDs(substrs ...string) map[string]bool {
+	out := map[string]bool{}
+	for _, g := range GoroutinesMatching(substrs...) {
+		f := strings.Fields(g)
+		if len(f) >= 2 && f[0] == "goroutine" {
+			out[f[1]] = true
+		}
+	}
+	return out
+}
+
+// WaitNewGoroutine polls until a goroutine matching substrs exists that is not in before; false on timeout.
+func WaitNewGoroutine(before map[string]bool, timeout time.Duration, substrs ...string) bool {
+	deadline := time.Now().Add(timeout)
+	sleep := 50 * time.Microsecond
+	for {
+		for id := range GoroutineIDs(substrs...) {
+			if !before[id] {
+				return true
+			}
+		}
+		if time.Now().After(deadline) {
+			return false
+		}
+		time.Sleep(sleep)
+		if sleep < 5*time.Millisecond {
+			sleep *= 2
+		}
+	}
+}
+
+// GoID returns the current goroutine's id (parsed from its stack header); harness hooks use it to act only on the
+// goroutine that installed them.
+func GoID() string {
+	var buf [64]byte
+	n := runtime.Stack(buf[:], false)
+	f := strings.Fields(string(buf[:n]))
+	if len(f) >= 2 {
+		return f[1]
+	}
+	return ""
+}
